@@ -10,7 +10,7 @@ import (
 // C10/new-api: "any finite sequence of API calls" includes calls of functions the tree under test ADDED. Every exported method of
 // *Element and *Scalar that the baseline API does not have is called (reflection, arguments built from the parameter types, panics
 // recovered) on several receivers; see pt.ProbeNewAPI for what must hold afterwards. On a tree without new methods there is
-// nothing to do. The same probe runs before one case in eight of the other checks (hostileCaller), so that whatever a new
+// nothing to do. Round 0 also runs pt.ProbeFollowUps: every sequence of up to three known operations on an object that met a new method. The same probe runs before one case in eight of the other checks (hostileCaller), so that whatever a new
 // function leaves behind in the package also meets the oracles of the known functions.
 
 type caseNewAPI struct {
@@ -27,6 +27,11 @@ var c10newapi = gen.Register(&gen.Check[caseNewAPI]{
 		o.NonTrivialIf(len(e)+len(s) > 0)
 		if msg := pt.ProbeNewAPI(1); msg != "" {
 			return gen.Fail("new-api/invariant", "%s", msg)
+		}
+		if c.Round == 0 {
+			if msg := pt.ProbeFollowUps(); msg != "" {
+				return gen.Fail("new-api/history", "%s", msg)
+			}
 		}
 		return nil
 	},
